@@ -18,6 +18,7 @@ import NomtModel.Driver.BranchUpdMode
 import NomtModel.Driver.SeekMode
 import NomtModel.Driver.PrepSyncMode
 import NomtModel.Driver.HasherMode
+import NomtModel.Driver.CachesMode
 /-!
 `nomt_model`: the executable Lean model behind a line protocol.
 First argument selects the sub-protocol; stdin → stdout, one output line per input line.
@@ -55,4 +56,5 @@ def main (args : List String) : IO UInt32 := do
   | ["seek"] => loop stdin stdout seekStep {}; return 0
   | ["prepsync"] => loop stdin stdout prepsyncStep (); return 0
   | ["hasher"] => loop stdin stdout hasherStep {}; return 0
+  | ["caches"] => loop stdin stdout cachesStep {}; return 0
   | _ => IO.eprintln "usage: nomt_model <core|...>"; return 2
